@@ -124,7 +124,7 @@ def _owner_matches(oname, path):
 # ------------------------------------------------------------------------------------------------
 # mode K / M
 
-def _kani_unit(unit, tier, seed):
+def _kani_unit(unit, tier, seed, pid=None):
     res = UnitResult(unit)
     t0 = time.time()
     scratch_copy = None
@@ -140,6 +140,8 @@ def _kani_unit(unit, tier, seed):
         return res
     res.cuts, res.counter = cuts, dict(counter)
     hs = [h for h in unit["harnesses"] if tier == "thorough" or h.get("tier", "quick") == "quick"]
+    # a finding obligation is reported only under the properties it belongs to
+    hs = [h for h in hs if not h.get("only_for") or pid is None or pid in h["only_for"]]
     if os.environ.get("VX_HARNESS"):
         want = os.environ["VX_HARNESS"].split(",")
         hs = [h for h in hs if h["name"] in want]
@@ -271,11 +273,11 @@ def _gen_mode_m(unit):
 
 # ------------------------------------------------------------------------------------------------
 
-def run_unit(unit, tier, seed):
+def run_unit(unit, tier, seed, pid=None):
     try:
         if unit["mode"] == "V":
             return _verus_unit(unit, tier, seed)
-        return _kani_unit(unit, tier, seed)
+        return _kani_unit(unit, tier, seed, pid)
     except Exception as e:  # tool problem: undecided, never an alarm
         r = UnitResult(unit)
         r.undecided.append("%s: internal error: %s\n%s" % (unit["name"], e, traceback.format_exc()[-2000:]))
@@ -327,7 +329,7 @@ def check_property(pid, tier, seed, only_unit=None):
     units = [u for u in units if tier == "thorough" or u.get("tier", "quick") == "quick"]
     maxw = int(os.environ.get("VX_PAR", "4"))
     with ThreadPoolExecutor(max_workers=maxw) as ex:
-        results = list(ex.map(lambda u: run_unit(u, tier, seed), units))
+        results = list(ex.map(lambda u: run_unit(u, tier, seed, pid), units))
     kf = known_findings()
     listed = {(f["property"], f["id"]): f for f in kf.get("findings", [])}
     violations, known_lines, undecided = [], [], []
